@@ -269,7 +269,7 @@ theorem C16_member_child_paths_declared (s : Struct) (hv : validate (.struct s) 
         fun es => childPass_reports _ _ _ ca a.ty (intoTypePaths_has _ a k hx hf he) happ path hp msg hm es
       have hchild := fun es => mem_foldl_of_step _ _ es _ ca hcam (fun y es hm' => ext_childPass _ _ _ y es _ hm') hstep
       split
-      · refine mem_foldl_of_mem _ _ _ _ (fun x es hm' => ext_namePass s x.1 x.2 es _ hm') ?_
+      · refine mem_foldl_of_mem _ _ _ _ (fun x es hm' => ext_namePass s x.1.core x.2 x.1.fallible es _ hm') ?_
         exact mem_foldl_of_mem _ _ _ _ (fun y es hm' => ext_ghostChildPass _ y es _ hm') (hchild _)
       · exact mem_foldl_of_mem _ _ _ _ (fun y es hm' => ext_ghostChildPass _ y es _ hm') (hchild _)
     rw [hv] at this
